@@ -37,6 +37,8 @@ def expr(e, env=None):
         return zlit(e.value)
     if isinstance(e, ast.Name):
         return env.get(e.id, e.id)
+    if isinstance(e, ast.Subscript) and '__arrays__' in env:
+        return env['__arrays__'](e)
     if isinstance(e, ast.BinOp) and type(e.op) in BINOPS:
         a, b = expr(e.left, env), expr(e.right, env)
         op = BINOPS[type(e.op)]
@@ -463,12 +465,112 @@ def t_containers():
     return out
 
 
+def t_kernels():
+    """het_compiled.py: corner weights of the scatter (forward, forward-shock) and gather (expectation) kernels"""
+    out = ''
+
+    def kernel(name, arrays, ndim, target, gather=False):
+        """arrays: param name -> Gallina variable ('@idx1'/'@idx2' for the index arrays); returns corner dict {(ox, oy): term}"""
+        fn = find_def('blocks/support/het_compiled.py', name)
+        if params(fn) != list(arrays):
+            raise Unsupported(f'{name} signature {params(fn)}')
+        loop = [n for n in fn.body if isinstance(n, ast.For)]
+        if len(loop) != 1:
+            raise Unsupported(f'{name}: loops')
+        body, depth = loop[0], 1
+        while len(body.body) == 1 and isinstance(body.body[0], ast.For):
+            body, depth = body.body[0], depth + 1
+        if depth != ndim + 1:
+            raise Unsupported(f'{name}: loop depth {depth}')
+        cur = ['iz', 'ix', 'iy'][:ndim + 1]
+        env, idxname = {}, {}
+
+        def arr(e):
+            nm = ast.unparse(e.value)
+            sub = [ast.unparse(x) for x in (e.slice.elts if isinstance(e.slice, ast.Tuple) else [e.slice])]
+            if nm in arrays and not arrays[nm].startswith('@') and nm != target and not (gather and nm == 'X'):
+                if sub != cur:
+                    raise Unsupported(f'{name}: {nm}[{sub}]')
+                return arrays[nm]
+            if gather and nm == 'X':
+                offs = []
+                for a_, x in zip(sub[1:], e.slice.elts[1:]):
+                    base = x.left.id if isinstance(x, ast.BinOp) else x.id
+                    off = 1 if isinstance(x, ast.BinOp) else 0
+                    if isinstance(x, ast.BinOp) and not (isinstance(x.op, ast.Add) and ast.unparse(x.right) == '1'):
+                        raise Unsupported('gather offset')
+                    if base not in idxname:
+                        raise Unsupported(f'gather base {base}')
+                    offs.append((idxname[base], off))
+                offs = dict(offs)
+                return f"X{offs.get(1, 0)}{offs.get(2, 0)}"
+            raise Unsupported(f'{name}: array {nm}')
+        env['__arrays__'] = arr
+        corners, gathered = {}, None
+        for st in body.body:
+            if isinstance(st, ast.Assign) and isinstance(st.targets[0], ast.Name):
+                v = st.value
+                if isinstance(v, ast.Subscript) and ast.unparse(v.value) in arrays and arrays[ast.unparse(v.value)].startswith('@'):
+                    idxname[st.targets[0].id] = int(arrays[ast.unparse(v.value)][-1])
+                else:
+                    env[st.targets[0].id] = expr(v, env)
+            elif isinstance(st, ast.AugAssign) and not gather:
+                sub = st.target.slice.elts
+                if ast.unparse(st.target.value) != target or ast.unparse(sub[0]) != 'iz':
+                    raise Unsupported(f'{name}: scatter target')
+                offs = {}
+                for x in sub[1:]:
+                    base = x.left.id if isinstance(x, ast.BinOp) else x.id
+                    if isinstance(x, ast.BinOp) and not (isinstance(x.op, ast.Add) and ast.unparse(x.right) == '1'):
+                        raise Unsupported('scatter offset')
+                    offs[idxname[base]] = 1 if isinstance(x, ast.BinOp) else 0
+                key = (offs.get(1, 0), offs.get(2, 0))
+                term = expr(st.value, env)
+                if isinstance(st.op, ast.Sub):
+                    term = f'(- {term})'
+                elif not isinstance(st.op, ast.Add):
+                    raise Unsupported('scatter operator')
+                corners[key] = f'({corners[key]} + {term})' if key in corners else term
+            elif isinstance(st, ast.Assign) and gather and ast.unparse(st.targets[0].value) == target:
+                if [ast.unparse(x) for x in st.targets[0].slice.elts] != cur:
+                    raise Unsupported('gather target')
+                gathered = expr(st.value, env)
+            else:
+                raise Unsupported(f'{name}: statement {ast.unparse(st)[:60]}')
+        return gathered if gather else corners
+
+    def emit_corners(dname, sig, corners, nd):
+        keys = [(0, 0), (1, 0)] if nd == 1 else [(0, 0), (1, 0), (0, 1), (1, 1)]
+        if sorted(corners) != sorted(keys):
+            raise Unsupported(f'{dname}: corners {sorted(corners)}')
+        body = '0'
+        for k in reversed(keys):
+            body = f'if (ox =? {k[0]}) && (oy =? {k[1]}) then {corners[k]} else {body}'
+        return f"Definition {dname} (ox oy : Z) {sig} : Z :=\n  {body}.\n\n"
+
+    c = kernel('forward_policy_1d', {'D': 'd', 'x_i': '@idx1', 'x_pi': 'xpi'}, 1, 'Dnew')
+    out += emit_corners('fwd1d_w', '(d xpi : Z)', c, 1)
+    c = kernel('forward_policy_shock_1d', {'Dss': 'd', 'x_i_ss': '@idx1', 'x_pi_shock': 'dxpi'}, 1, 'Dshock')
+    out += emit_corners('shock1d_w', '(d dxpi : Z)', c, 1)
+    g = kernel('expectation_policy_1d', {'X': 'X', 'x_i': '@idx1', 'x_pi': 'xpi'}, 1, 'Xnew', gather=True)
+    out += f"Definition exp1d (xpi X00 X10 : Z) : Z :=\n  {g}.\n\n"
+    c = kernel('forward_policy_2d', {'D': 'd', 'x_i': '@idx1', 'y_i': '@idx2', 'x_pi': 'xpi', 'y_pi': 'ypi'}, 2, 'Dnew')
+    out += emit_corners('fwd2d_w', '(d xpi ypi : Z)', c, 2)
+    c = kernel('forward_policy_shock_2d', {'Dss': 'd', 'x_i_ss': '@idx1', 'y_i_ss': '@idx2', 'x_pi_ss': 'xpi', 'y_pi_ss': 'ypi',
+                                           'x_pi_shock': 'dxpi', 'y_pi_shock': 'dypi'}, 2, 'Dshock')
+    out += emit_corners('shock2d_w', '(d xpi ypi dxpi dypi : Z)', c, 2)
+    g = kernel('expectation_policy_2d', {'X': 'X', 'x_i': '@idx1', 'y_i': '@idx2', 'x_pi': 'xpi', 'y_pi': 'ypi'}, 2, 'Xnew', gather=True)
+    out += f"Definition exp2d (xpi ypi X00 X10 X01 X11 : Z) : Z :=\n  {g}.\n"
+    return out
+
+
 TARGETS = {
     'MultiplyBasis': t_multiply_basis,
     'ComputeL': t_compute_l,
     'SparseIndex': t_sparse_index,
     'Estimation': t_estimation,
     'Containers': t_containers,
+    'Kernels': t_kernels,
 }
 
 
